@@ -792,7 +792,7 @@ def crate_text(decls, harnesses, extra_items='', features=()):
     names = []
     for d in decls:
         names.extend(d.aux)
-    out = ['#![allow(dead_code, unused_imports, unused_variables, unused_mut, static_mut_refs, non_snake_case, non_upper_case_globals, unused_unsafe, clippy::all)]\n',
+    out = ['#![allow(dead_code, unused_imports, unused_variables, unused_mut, static_mut_refs, non_snake_case, non_upper_case_globals, unused_unsafe, overflowing_literals, clippy::all)]\n',
            'use nutype::nutype;\n', aux.render(names, 'kani'), '\n']
     for d in decls:
         out.append('pub mod d_%s {\n    use super::*;\n%s}\n' % (d.id, ''.join('    ' + l + '\n' for l in d.source().splitlines())))
@@ -878,10 +878,32 @@ def kani_run_harnesses(out, prop, tag, decls, harnesses, extra_items='', feature
     if not harnesses:
         return
     t0 = time.time()
-    text = crate_text(decls, harnesses, extra_items)
-    crate = write_crate(tag, text, features=features)
-    rc, output, wall, cmd = run_kani(crate, jobs=jobs, extra_flags=extra_flags)
-    res = parse_kani(output)
+    for attempt in range(3):
+        text = crate_text(decls, harnesses, extra_items)
+        crate = write_crate(tag, text, features=features)
+        rc, output, wall, cmd = run_kani(crate, jobs=jobs, extra_flags=extra_flags)
+        res = parse_kani(output)
+        if res or 'error' not in output:
+            break
+        # the crate does not compile: attribute rustc's errors to declarations, set those aside
+        # (undecided for them) and retry with the rest
+        lines = text.splitlines()
+        bad = set()
+        for m in re.finditer(r'-->\s*src/lib\.rs:(\d+):', output):
+            ln = int(m.group(1))
+            for j in range(min(ln, len(lines)) - 1, -1, -1):
+                mm = re.match(r'\s*(?:pub mod (?:d|ref)_([A-Za-z0-9_]+) \{|fn k_([A-Za-z0-9_]+?)__)', lines[j])
+                if mm:
+                    bad.add(mm.group(1) or mm.group(2))
+                    break
+        bad = {b for b in bad if any(d.id == b for d in decls)}
+        if not bad:
+            break
+        first_err = re.search(r'error(\[E\d+\])?: (.*)', output)
+        for b in sorted(bad):
+            out.undecided.append('%s: the harness crate does not compile for this declaration (%s)' % (b, first_err.group(2)[:150] if first_err else ''))
+        decls = [d for d in decls if d.id not in bad]
+        harnesses = [h for h in harnesses if h.decl.id not in bad]
     out.checker_cmds.append('cargo kani -j %d --output-format terse -Z function-contracts -Z stubbing   (crate work/kani_%s, %d harnesses)' % (jobs, tag, len(harnesses)))
     if not res:
         out.undecided.append('kani crate %s did not build/run: %s' % (tag, output[-1500:]))
